@@ -1822,12 +1822,22 @@ def error_scenarios(rng, count):
                 b.var("lm", b.lam(["q"], lambda: call(b.v("step%d" % (i + 1)), b.v("q")))); e = call(b.v("lm"), b.v("arg"))
             else:
                 b.var("fb", inv(b.v("Fiber"), "new", b.v("step%d" % (i + 1)))); e = inv(b.v("fb"), "call", b.v("arg"))
+            # the calling statement in every shape: the call may be the LAST instruction of its line (initialising a local), or be followed on
+            # the same line by a pop, a store, another call
+            form = rng.choice(["print", "print", "local", "local", "expr", "assign", "argument"])
+
+            def use(e_):
+                if form == "print": b.print(e_)
+                elif form == "local": b.var("res%d" % i, e_)
+                elif form == "expr": b.expr(e_)
+                elif form == "assign": b.expr(b.assign("keep%d" % i, e_))
+                else: b.print(tup(lit("result"), e_, lit("end")))
             if caught_at == i and n > 0:
-                b.try_(); b.print(e); b.catch("e"); b.print(tup(lit("caught"), call(b.v("type"), b.v("e")), b.v("keep%d" % i))); b.end()
+                b.try_(); use(e); b.catch("e"); b.print(tup(lit("caught"), call(b.v("type"), b.v("e")), b.v("keep%d" % i))); b.end()
             elif through in ("caller", "both") and i % 2 == 0:
-                b.try_(); b.print(e); b.finally_(); b.print(tup(lit("finally of a caller"), b.v("keep%d" % i))); b.end()
+                b.try_(); use(e); b.finally_(); b.print(tup(lit("finally of a caller"), b.v("keep%d" % i))); b.end()
             else:
-                b.print(e)
+                use(e)
             b.ret(lit("ok%d" % i))
             b.end()
         b.print(lit("start"))
